@@ -990,9 +990,10 @@ def c01(tier):
     jobs = [LJ("VerifC01_RoundTrip", tier, NODES=W(tier, 4, 5), DEPTH=W(tier, 1, 2), **SHAPES), LJ("VerifC01_RoundTrip", tier, **NAMES),
             LJ("VerifC01_RoundTrip", tier, NODES=2, CONDS=W(tier, 1, 2)),
             LJ("VerifC01_RoundTrip", tier, CHAIN=W(tier, 9, 16), **SHAPES),
-            LJ("VerifC01_RoundTrip", tier, NODES=1, DEPTH=0, SIBLINGS=0, CONDS=1, FIXLAYOUT=1, PARAMS=2, PTYPES=1)]
+            LJ("VerifC01_RoundTrip", tier, NODES=1, DEPTH=0, SIBLINGS=0, CONDS=1, FIXLAYOUT=1, PARAMS=2, PTYPES=1),
+            LJ("VerifC01_RoundTrip", tier, NODES=1, DEPTH=0, SIBLINGS=0, CONDS=1, FIXLAYOUT=1, PARAMS=1, EXPRS=1)]
     out = engine_a_check("C01", tier, jobs, {"VerifC01_RoundTrip": ["rendered", "stable"]},
-                         PARSER_STUB + ["condition expressions are a fixed token sequence without '#'", "the JSON string API differs from the direct hand-over only by protojson (not encoded)"], "",
+                         PARSER_STUB + ["condition expressions come from a menu of token sequences without '#' (comparison, wrapped lines, modulo, string literals with percent signs)", "the JSON string API differs from the direct hand-over only by protojson (not encoded)"], "",
                          bounds={"shapes": "expression trees with <= %d operands in total, parenthesis depth <= %d, redundant parentheses <= 2 pairs, 4 restriction lists" % (W(tier, 4, 5), W(tier, 1, 2)),
                                  "names": "type / relation / sibling / condition names symbolic, length <= 2"})
     out.finish()
